@@ -94,16 +94,16 @@ const srcV = `package src
 import (
 	"context"
 
-	"scn/dep"
+	%s"scn/dep"
 )
 
 type Alpha interface {
-	Get(ctx context.Context, id string) (*dep.Item, error)
-	Put(item dep.Item%s) error%s
+	Get(ctx context.Context, id string) (*%s.Item, error)
+	Put(item %s.Item%s) error%s
 }
 
 type Beta interface {
-	Each(fn func(dep.Item) bool)
+	Each(fn func(%s.Item) bool)
 	Len() int%s
 }
 
@@ -139,14 +139,20 @@ type Codec interface {
 }
 `
 
-func srcVersion(v int) string {
+// srcVersion renders the source package: v selects the shape of the
+// interfaces, aliased whether the file imports scn/dep under the name dp.
+func srcVersion(v int, aliased bool) string {
+	imp, q := "", "dep"
+	if aliased {
+		imp, q = "dp ", "dp"
+	}
 	switch v % 3 {
 	case 0:
-		return fmt.Sprintf(srcV, "", "", "")
+		return fmt.Sprintf(srcV, imp, q, q, "", "", q, "")
 	case 1:
-		return fmt.Sprintf(srcV, ", force bool", "\n\tDel(id string) error", "")
+		return fmt.Sprintf(srcV, imp, q, q, ", force bool", "\n\tDel(id string) error", q, "")
 	default:
-		return fmt.Sprintf(srcV, ", force bool", "\n\tDel(id string) error", "\n\tName() string")
+		return fmt.Sprintf(srcV, imp, q, q, ", force bool", "\n\tDel(id string) error", q, "\n\tName() string")
 	}
 }
 
@@ -295,7 +301,7 @@ func copyDir(src, dst string) error {
 func setup(root string, sc *Scenario) error {
 	files := map[string]string{
 		"go.mod":                 "module scn\n\ngo 1.24\n",
-		"src/src.go":             srcVersion(0),
+		"src/src.go":             srcVersion(0, sc.StartAliased),
 		"src/enc.go":             srcEnc,
 		"src/dec.go":             srcDec,
 		"sigs/yaml/yaml.go":      "package yaml\n\ntype Node struct{ Kind int }\n",
@@ -316,6 +322,12 @@ func setup(root string, sc *Scenario) error {
 		if err := os.WriteFile(p, []byte(content), 0o644); err != nil {
 			return err
 		}
+	}
+	// hand-maintained neighbours of -out whose names merely start like it
+	if outDir := filepath.Dir(filepath.Clean(filepath.Join(root, "src", sc.Place.Out))); sc.Place.Writable && !sc.Place.NeedsDirs {
+		base := filepath.Base(sc.Place.Out)
+		os.WriteFile(filepath.Join(outDir, base+".tmpl"), []byte("template kept next to the mock\n"), 0o644)
+		os.WriteFile(filepath.Join(outDir, base+".tmp.bak"), []byte("somebody's backup\n"), 0o644)
 	}
 	if sc.Place.Symlink != "" {
 		link := filepath.Clean(filepath.Join(root, "src", sc.Place.Out))
@@ -349,6 +361,7 @@ func setup(root string, sc *Scenario) error {
 type world struct {
 	outReal   string // where a symlinked -out really lives ("" otherwise)
 	version   int
+	aliased   bool
 	broken    bool
 	prior     string // absent, own, stale, truncate, garbage, empty, otherpkg, selfdecl, aliases, torn, dir
 	lastRun   *Step
@@ -376,7 +389,7 @@ func (r *Runner) Run(sc *Scenario, id string) ([]Finding, *Stats, error) {
 	if sc.Place.Symlink != "" {
 		outReal = filepath.Clean(filepath.Join(filepath.Dir(outAbs), sc.Place.Symlink))
 	}
-	w := &world{prior: "absent", broken: sc.IncompleteMod, outReal: outReal}
+	w := &world{prior: "absent", broken: sc.IncompleteMod, outReal: outReal, aliased: sc.StartAliased}
 	if sc.Place.Symlink != "" {
 		w.prior = "placeholder" // the link's target exists and is valid Go of the destination package
 	}
@@ -440,13 +453,17 @@ func (r *Runner) Run(sc *Scenario, id string) ([]Finding, *Stats, error) {
 			w.touched = true
 			tr("step %d: damage -out with %q (%d bytes)", i, step.Damage, len(content))
 		case StepEvolve:
-			w.version++
-			os.WriteFile(filepath.Join(srcDir, "src.go"), []byte(srcVersion(w.version)), 0o644)
+			if step.Damage == "alias" {
+				w.aliased = !w.aliased
+			} else {
+				w.version++
+			}
+			os.WriteFile(filepath.Join(srcDir, "src.go"), []byte(srcVersion(w.version, w.aliased)), 0o644)
 			if w.prior == "own" {
 				w.prior = "stale"
 			}
 			w.touched = true
-			tr("step %d: interface evolves to version %d", i, w.version)
+			tr("step %d: source evolves (%s): interface version %d, dep imported with alias: %v", i, step.Damage, w.version, w.aliased)
 		case StepDelete:
 			if sc.Place.Writable {
 				os.Remove(outAbs)
@@ -560,6 +577,14 @@ func (r *Runner) runStep(sc *Scenario, i int, step Step, w *world, M, srcDir, ou
 		fired := firedFaults(act.Log)
 		countFaults(st, step.Fault, fired)
 		tr("step %d: %s -> exit %d, faults fired %v", i, step, act.Exit, fired)
+		for _, f := range fired {
+			if strings.HasPrefix(f, "crash") {
+				// a killed process promises nothing
+				st.Outcomes["crashed"]++
+				w.lastRun, w.touched = copyStep(step), true
+				return
+			}
+		}
 		// standard output is itself the failing destination here: bytes the
 		// injected short write let through are not moq's doing, so only the
 		// exit status and the diagnostic are checked
@@ -616,6 +641,14 @@ func (r *Runner) runStep(sc *Scenario, i int, step Step, w *world, M, srcDir, ou
 		if e.Prim == "remove" && e.Fault != "" {
 			excused["created "+relTo(M, e.Path)] = true
 		}
+		if e.Prim == "interject" && e.Err == "" {
+			excused["created "+relTo(M, e.Path)] = true
+			if _, err := os.Stat(e.Path); err != nil {
+				add(i, "C18", "foreign-file-deleted", "", "%s deleted %s, a file another process created while moq was running", cmdline, relTo(M, e.Path))
+			}
+			// the next step must not see it as part of the tree
+			defer os.Remove(e.Path)
+		}
 	}
 	realRel := ""
 	if w.outReal != "" {
@@ -656,8 +689,10 @@ func (r *Runner) runStep(sc *Scenario, i int, step Step, w *world, M, srcDir, ou
 		switch {
 		case mustFail || !pl.Writable:
 			add(i, "C17", "exit-zero-on-failure", failureSite(step), "%s must fail (%s) but exited 0", cmdline, failureSiteOr(step, "unwritable destination"))
-		case faultOnOut:
-			add(i, "C17", "exit-zero-on-failure", faultSite(step.Fault), "%s: %v failed by injection but moq exited 0", cmdline, fired)
+		case faultOnOut && !wroteAfterLastFault(act.Log, outAbs, w.outReal):
+			// an injected failure on the write path is acceptable only if moq
+			// then got the complete file there some other way (compared below)
+			add(i, "C17", "exit-zero-on-failure", faultSite(step.Fault), "%s: %v failed by injection, nothing was written to -out afterwards, but moq exited 0", cmdline, fired)
 		}
 		if !refOK {
 			if !mustFail {
@@ -715,6 +750,30 @@ func (r *Runner) runStep(sc *Scenario, i int, step Step, w *world, M, srcDir, ou
 		w.lastOK = false
 	}
 	w.lastRun, w.touched = copyStep(step), false
+}
+
+// wroteAfterLastFault reports whether, after the last injected failure, moq
+// still completed a write of -out (a full write to it, or a rename onto it).
+func wroteAfterLastFault(log []simos.LogEntry, outAbs, outReal string) bool {
+	last := -1
+	for i, e := range log {
+		if e.Fault != "" {
+			last = i
+		}
+	}
+	for _, e := range log[last+1:] {
+		if e.Err != "" {
+			continue
+		}
+		isOut := func(p string) bool { return p == outAbs || (outReal != "" && p == outReal) }
+		if e.Prim == "rename" && isOut(e.Path2) {
+			return true
+		}
+		if e.Prim == "write" && isOut(e.Path) && e.Done == e.N {
+			return true
+		}
+	}
+	return false
 }
 
 func stdoutWrites(log []simos.LogEntry) int {
